@@ -205,7 +205,10 @@ Record LInv (h : history) (clk nid : N) : Prop := {
       In (te, RReady c j) h -> In (ts, RSnap c j' ev ls) h -> j' < j -> ts < te;
   li_close_cancel : forall t c, In (t, RClose c) h -> exists tc, In (tc, RCancel) h /\ tc < t;
   li_close_final : forall t c t' r, In (t, RClose c) h -> In (t', r) h -> src_of r = Some c ->
-      t' < t \/ (t' = t /\ r = RClose c)
+      t' < t \/ (t' = t /\ r = RClose c);
+  li_counted : forall tc ev n, In (tc, RCounted ev n) h ->
+      forall ls, NoDup ls -> (forall l, In l ls -> exists kd, alive_at h tc l ev kd) ->
+                 N.of_nat (List.length ls) <= n
 }.
 
 (* what a step has to know about the pre-state to append record rn *)
@@ -229,6 +232,8 @@ Definition rec_ok (h : history) (nid : N) (rn : rec) : Prop :=
                                map fst done = delivs h c j) /\
       (forall t j' ev' l' kd', In (t, RDeliver c j' ev' l' kd') h -> j' <= j)
   | RClose c => exists tc, In (tc, RCancel) h
+  | RCounted ev n =>
+      forall ls, NoDup ls -> (forall l, In l ls -> exists kd, alive h l ev kd) -> N.of_nat (List.length ls) <= n
   | _ => True
   end /\
   (forall c, src_of rn = Some c -> forall t, ~ In (t, RClose c) h).
@@ -365,6 +370,11 @@ Proof.
     + injection H as ? ?. subst. left. eapply Hclk, H'.
     + injection H' as ? ?. subst. exfalso. eapply Hcl; eauto.
     + eapply (li_close_final _ _ _ L); eauto.
+  - (* counted *) intros tc ev n H ls Hnd Hal. inlog H.
+    + cbn in Hok. apply Hok; [exact Hnd|]. intros l Hl. destruct (Hal l Hl) as (kd & Ha). exists kd.
+      eapply alive_at_now; [exact Hclk| | |exact Ha]; intros; discriminate.
+    + apply (li_counted _ _ _ L _ _ _ H ls Hnd). intros l Hl. destruct (Hal l Hl) as (kd & Ha). exists kd.
+      eapply alive_at_cons; [exact Hclk|eapply Hclk, H|exact Ha].
 Qed.
 
 (* ---------- thread-local parts ---------- *)
